@@ -169,6 +169,17 @@ def _builtin(ex, st, c, callee, args, fn):
             e = _struct_eq(_val(ex, st, args[0]), _val(ex, st, args[1]))
             if e is not None:
                 return e if m.group(2) == 'eq' else z3.Not(e)
+    m = re.match(r'^<\(((?:[iu](?:8|16|32|64|128|size))(?:, (?:[iu](?:8|16|32|64|128|size)))*),?\) as (PartialOrd|PartialEq)>::(lt|le|gt|ge|eq|ne)$', c)
+    if m:
+        # tuples of integers: lexicographic order
+        a, b = _val(ex, st, args[0]), _val(ex, st, args[1])
+        if isinstance(a, Struct) and isinstance(b, Struct) and len(a.f) == len(b.f) and all(isinstance(x, z3.ExprRef) for x in a.f + b.f):
+            lt = z3.BoolVal(False); eq = z3.BoolVal(True)
+            for x, y in reversed(list(zip(a.f, b.f))):
+                lt = z3.Or(x < y, z3.And(x == y, lt))
+            eq = z3.And([x == y for x, y in zip(a.f, b.f)])
+            k = m.group(3)
+            return {'lt': lt, 'le': z3.Or(lt, eq), 'gt': z3.Not(z3.Or(lt, eq)), 'ge': z3.Not(lt), 'eq': eq, 'ne': z3.Not(eq)}[k]
     if re.match(r'^<(Ordering|std::cmp::Ordering) as PartialEq>::(eq|ne)$', c):
         a, b = _val(ex, st, args[0]), _val(ex, st, args[1])
         e = a.disc() == b.disc()
